@@ -368,6 +368,27 @@ class Executor:
                 return v
             if c.key == cond.neg().key:
                 return not v
+        # a conjunction with complementary conjuncts (or one already refuted on this path) is false, a disjunction with
+        # complementary disjuncts (or one already established) is true: no infeasible path is opened for it
+        if cond.t[0] in ("and", "or"):
+            kind = cond.t[0]
+            parts, todo = [], [cond]
+            while todo:
+                c = todo.pop()
+                if c.t[0] == kind:
+                    todo.extend([c.t[2], c.t[1]])
+                else:
+                    parts.append(c)
+            keys = {c.key for c in parts}
+            if any(c.neg().key in keys for c in parts):
+                return kind == "or"
+            known = {c.key: v for c, v in self.facts}
+            for c in parts:
+                v = known.get(c.key)
+                if v is None and c.neg().key in known:
+                    v = not known[c.neg().key]
+                if v is not None and v == (kind == "or"):
+                    return kind == "or"
         v = self.oracle.decide()
         self.facts.append((cond, v))
         self.emit("decide", node, cond=cond, taken=v)
@@ -759,15 +780,20 @@ class Executor:
             while isinstance(root.meta.get("alias_of"), Num) or isinstance(root.meta.get("reshaped_from"), Num):
                 root = root.meta.get("alias_of") if isinstance(root.meta.get("alias_of"), Num) else root.meta.get("reshaped_from")
             if root.arr is not None:
+                if getattr(root.arr, "foreign_root", False):
+                    # a foreign array that an earlier store already materialised: still not the analysed code's own
+                    self.emit("store_foreign", st, target=base, root=root, index=idx, value=v, aug=aug)
                 self.store_array(root.arr, idx, v, st, frame, aug, view=base)
                 return
-            if self.is_foreign(root):
+            foreign = self.is_foreign(root)
+            if foreign:
                 # store into an array the analysed code did not allocate (argument / fitted field)
                 self.emit("store_foreign", st, target=base, root=root, index=idx, value=v, aug=aug)
             # materialise the temporary as a mutable array (shared by reference)
             self.arr_counter += 1
             a = ArrObj(self.arr_counter, ("copy", root.nf), root.shape, root.dtype, st, frame.func)
             a.materialised = True
+            a.foreign_root = foreign
             self.arrays[a.aid] = a
             root.arr = a
             if base is not root:
@@ -1251,6 +1277,8 @@ class Executor:
                 if len(vals) <= self.unroll_limit:
                     return [Num(NF.const(i), (), "int") for i in vals]
         if isinstance(it, DictV):
+            if getattr(it, "opaque", False):
+                return None
             return [k for k, _ in it.items]
         if getattr(self, "unroll_zip", False) and isinstance(it, OpaqueV) and it.meta.get("kind") == "zip":
             # zip stops at its shortest part: with a part of known length m the loop runs at most m times.  The
@@ -1984,6 +2012,8 @@ class Executor:
             return self.index_num(base, idx, node)
         if isinstance(base, DictV):
             k = idx[0]
+            if getattr(base, "opaque", False):
+                return OpaqueV(f"dictitem({valkey(base)},{valkey(k)})")
             for kk, v in base.items:
                 if valkey(kk) == valkey(k):
                     return v
@@ -2064,7 +2094,7 @@ class Executor:
         for k in e.keywords:
             if k.arg is None:
                 v = self.ev(k.value, frame)
-                if isinstance(v, DictV) and all(isinstance(kk, StrV) and kk.s is not None for kk, _ in v.items):
+                if isinstance(v, DictV) and not getattr(v, "opaque", False) and all(isinstance(kk, StrV) and kk.s is not None for kk, _ in v.items):
                     for kk, vv in v.items:
                         kwargs[kk.s] = vv
                 else:
@@ -2143,7 +2173,27 @@ class Executor:
         it = self.ev(g.iter, frame)
         items = self.concrete_items(it)
         if items is None or len(items) > self.unroll_limit:
-            raise Undecided("dict comprehension over an iterable of unknown length", e)
+            # an iterable of unknown length: the generic entry (key, value) of an arbitrary element, like a list
+            # comprehension's generic element - equal keys of different elements collapse, which the entry's key tells
+            inner = Frame(frame.func, frame.module, {}, parent=frame)
+            lid = f"{frame.func.qualname if frame.func else '?'}#dcomp{getattr(e, 'lineno', 0)}_{getattr(e, 'col_offset', 0)}"
+            ctx = LoopCtx(lid, "comp", e, frame.func)
+            elem = self.generic_element(it, ctx, e)
+            ctx.var = elem
+            ctx.info["iter"] = it
+            self.assign(g.target, elem, inner, e)
+            self.loops = self.loops + [ctx]
+            try:
+                conds = [self.truth(self.ev(cnd, inner), e) for cnd in g.ifs]
+                k = self.ev(e.key, inner)
+                v = self.ev(e.value, inner)
+            finally:
+                self.loops = self.loops[:-1]
+            r = DictV([])
+            r.opaque = True
+            r.comp = {"ctx": ctx, "key": k, "value": v, "conds": conds, "iter": it}
+            self.emit("comprehension", e, result=r, loop=ctx, elem=v, conds=conds, iter=it)
+            return r
         inner = Frame(frame.func, frame.module, {}, parent=frame)
         out = []
         for x in items:
